@@ -1058,8 +1058,42 @@ def _guarded_gen(ctx, fname, fn, *args):
         return None
 
 
+def _flip_bits(b):
+    return "".join("1" if c == "0" else "0" if c == "1" else c for c in b)
+
+
+def gen_tablehist_case(rng, alg):
+    """3–4 table cases on the SAME (cached) algorithm object with the same S / P / U: random tables, their
+    complement, the first tables again, a fresh random table"""
+    first = gen_table_case(rng, alg, nmax=6)
+    while first["n"] < 3 or len(first["S"]) < 2:
+        first = gen_table_case(rng, alg, nmax=6)
+    second = dict(first)
+    for k in ("dom", "cov", "pess"):
+        if k in first:
+            second[k] = _flip_bits(first[k])
+    fresh = gen_table_case(rng, alg, nmax=6)
+    third = dict(first)
+    steps = [first, second, third]
+    if fresh["n"] == first["n"]:
+        fourth = dict(first)
+        for k in ("dom", "cov", "pess"):
+            if k in first and k in fresh:
+                fourth[k] = fresh[k]
+        steps.append(fourth)
+    for st in steps:
+        st["shape"] = first["shape"]
+    return {"kind": "tablehist", "steps": steps}
+
+
 def gen(ctx):
     rng = ctx.rng
+    if ctx.worker == 0:
+        import random as _random
+        for alg in TABLE_ALGS:
+            hr = _random.Random(f"tablehist-{alg}")     # seed-independent: the same histories in every run
+            for _ in range(3):
+                yield gen_tablehist_case(hr, alg)
     # structured first: every algorithm class × every table shape once
     if ctx.worker == 0:
         for fname, fam in (("placed", gen_placed_cases), ("placed2", gen_placed_cases2), ("nested", gen_nested_cases),
@@ -1107,6 +1141,8 @@ def gen(ctx):
     nmax = 7 if ctx.tier == "quick" else 10
     for _ in range(ctx.n(400, 20000)):
         yield gen_table_case(rng, nmax=nmax)
+    for _ in range(ctx.n(30, 2000)):
+        yield gen_tablehist_case(rng, rng.choice(TABLE_ALGS))
     for _ in range(ctx.n(30, 1000)):
         yield gen_run_case(rng)
 
@@ -2060,6 +2096,14 @@ def run_case_common(ctx, case, prop):
     kind = case["kind"]
     if kind == "table":
         run_table(ctx, case, prop)
+    elif kind == "tablehist":
+        # HISTORY on one algorithm object: the same sets, the oracle answers of every ordered pair change from
+        # step to step (regions are rebuilt every round, they are not nested) — each step is judged on its own
+        # tables, so an answer remembered from an earlier step (a memo of "cannot cover" / "is dominated" pairs,
+        # a cached pessimistic set) shows as a plain mismatch
+        ctx.count("tablehist_" + case["steps"][0]["alg"])
+        for sub in case["steps"]:
+            run_table(ctx, sub, prop)
     elif kind == "auer":
         run_auer(ctx, case, prop)
     elif kind == "run":
